@@ -36,14 +36,15 @@ theorem Addressable.mono {ct : Option CardType} {k : Kind} {i j : Nat} (h : Addr
 initialisation state, and the list of protocol violations (so: no new violation). -/
 def Unchanged (c c' : Card) : Prop :=
   c'.kind = c.kind ∧ c'.capacity = c.capacity ∧ c'.csd = c.csd ∧ c'.ncr = c.ncr ∧ c'.nac = c.nac ∧
-  c'.busy = c.busy ∧ c'.crcOn = c.crcOn ∧ c'.violations = c.violations
+  c'.busy = c.busy ∧ c'.crcOn = c.crcOn ∧ c'.violations = c.violations ∧ c'.stopGap = c.stopGap
 
-theorem Unchanged.refl (c : Card) : Unchanged c c := ⟨rfl, rfl, rfl, rfl, rfl, rfl, rfl, rfl⟩
+theorem Unchanged.refl (c : Card) : Unchanged c c := ⟨rfl, rfl, rfl, rfl, rfl, rfl, rfl, rfl, rfl⟩
 
 theorem Unchanged.trans {c c' c'' : Card} (h : Unchanged c c') (h' : Unchanged c' c'') : Unchanged c c'' := by
-  obtain ⟨a1, a2, a3, a4, a5, a6, a7, a8⟩ := h
-  obtain ⟨b1, b2, b3, b4, b5, b6, b7, b8⟩ := h'
-  exact ⟨b1.trans a1, b2.trans a2, b3.trans a3, b4.trans a4, b5.trans a5, b6.trans a6, b7.trans a7, b8.trans a8⟩
+  obtain ⟨a1, a2, a3, a4, a5, a6, a7, a8, a9⟩ := h
+  obtain ⟨b1, b2, b3, b4, b5, b6, b7, b8, b9⟩ := h'
+  exact ⟨b1.trans a1, b2.trans a2, b3.trans a3, b4.trans a4, b5.trans a5, b6.trans a6, b7.trans a7, b8.trans a8,
+    b9.trans a9⟩
 
 theorem getBlock_congr {c c' : Card} (h : c'.mem = c.mem) (j : Nat) : getBlock c' j = getBlock c j := by
   unfold getBlock; rw [h]
@@ -107,14 +108,14 @@ theorem read_multi_sum (s : St Card) (hS : Settled s.bus)
 
 theorem write_multi_sum (s : St Card) (hS : Settled s.bus)
     (hbl : s.bus.busyLeft ≤ DEFAULT_COMMAND_RETRIES) (hncr : s.bus.ncr ≤ DEFAULT_COMMAND_RETRIES)
-    (hbusy : s.bus.busy ≤ DEFAULT_WRITE_RETRIES) (hcrc : s.bus.crcOn = true → s.useCrc = true)
+    (hbusy : s.bus.busy ≤ DEFAULT_WRITE_RETRIES) (hgap : s.bus.stopGap ≤ 1) (hcrc : s.bus.crcOn = true → s.useCrc = true)
     (blocks : List Bytes) (idx : Nat) (hn1 : blocks.length ≠ 1)
     (hadr : Addressable s.cardType s.bus.kind idx) (hidx : idx < s.bus.capacity)
     (hcap : idx + blocks.length ≤ s.bus.capacity) (hlen : ∀ b ∈ blocks, b.length = 512) :
     ∃ s', Sd.write cardBus blocks idx s = (.ok (), s') ∧ s'.bus.mem = writeMem s.bus.mem idx blocks ∧
       s'.bus.busyLeft = 0 ∧ Outcome s s' := by
   obtain ⟨start, hstart, h32, hblk⟩ := hadr.start
-  obtain ⟨s', h, a⟩ := write_multi_card s hS hbl hncr hbusy hcrc blocks idx start hn1 hstart h32 hblk hidx hcap hlen
+  obtain ⟨s', h, a⟩ := write_multi_card s hS hbl hncr hbusy hgap hcrc blocks idx start hn1 hstart h32 hblk hidx hcap hlen
   refine ⟨s', h, by rw [a.1], by rw [a.1], ⟨by rw [a.1]; exact Unchanged.refl _, ?_, a.2.1, a.2.2.1⟩⟩
   rw [a.1]; exact ⟨hS.1, hS.2, hS.3, rfl, hS.5, rfl⟩
 
@@ -150,7 +151,7 @@ theorem readSingles_card : ∀ (n idx : Nat) (s : St Card), Settled s.bus →
     intro idx s hS hbl hncr hnac hadr hcap hlen
     obtain ⟨s1, h1, m1, b1, o1⟩ := read_single_sum s hS hbl hncr hnac idx (by simpa using hadr 0 (by omega))
       (by omega) (hlen idx (Nat.le_refl _) (by omega))
-    obtain ⟨u1, u2, u3, u4, u5, u6, u7, u8⟩ := o1.unchanged
+    obtain ⟨u1, u2, u3, u4, u5, u6, u7, u8, u9⟩ := o1.unchanged
     obtain ⟨s2, h2, m2, b2, o2⟩ := ih (idx + 1) s1 o1.settled (by rw [b1]; exact Nat.zero_le _) (by rw [u4]; exact hncr)
       (by rw [u5]; exact hnac)
       (fun k hk => by rw [o1.cardType, u1, show idx + 1 + k = idx + (k + 1) by omega]; exact hadr (k + 1) (by omega))
@@ -178,7 +179,7 @@ theorem writeSingles_card : ∀ (blocks : List Bytes) (idx : Nat) (s : St Card),
     simp only [List.length_cons] at hadr hcap
     obtain ⟨s1, h1, m1, b1, o1⟩ := write_single_sum s hS hbl hncr hbusy hcrc idx (by simpa using hadr 0 (by omega))
       (by omega) b (hlen b (List.mem_cons_self ..))
-    obtain ⟨u1, u2, u3, u4, u5, u6, u7, u8⟩ := o1.unchanged
+    obtain ⟨u1, u2, u3, u4, u5, u6, u7, u8, u9⟩ := o1.unchanged
     obtain ⟨s2, h2, m2, b2, o2⟩ := ih (idx + 1) s1 o1.settled (by rw [b1]; exact Nat.zero_le _) (by rw [u4]; exact hncr)
       (by rw [u6]; exact hbusy) (by rw [u7, o1.useCrc]; exact hcrc)
       (fun k hk => by rw [o1.cardType, u1, show idx + 1 + k = idx + (k + 1) by omega]; exact hadr (k + 1) (by omega))
